@@ -10,7 +10,9 @@ Inductive subexpr : expr -> expr -> Prop :=
 | sub_bin_r e o a b : subexpr e b -> subexpr e (EBin o a b)
 | sub_un e o a : subexpr e a -> subexpr e (EUn o a)
 | sub_cast e a t : subexpr e a -> subexpr e (ECast a t)
-| sub_call e f es a : In a es -> subexpr e a -> subexpr e (ECall f es).
+| sub_call e f es a : In a es -> subexpr e a -> subexpr e (ECall f es)
+| sub_slit e sid es a : In a es -> subexpr e a -> subexpr e (EStructLit sid es)
+| sub_field e a k : subexpr e a -> subexpr e (EField a k).
 
 (* e occurs (at any depth) in statement s *)
 Inductive occurs : expr -> stmt -> Prop :=
@@ -18,6 +20,7 @@ Inductive occurs : expr -> stmt -> Prop :=
 | oc_seq_r e a b : occurs e b -> occurs e (SSeq a b)
 | oc_let e x t e0 : subexpr e e0 -> occurs e (SLet x t e0)
 | oc_assign e x e0 : subexpr e e0 -> occurs e (SAssign x e0)
+| oc_assignf e x k e0 : subexpr e e0 -> occurs e (SAssignField x k e0)
 | oc_if_c e c a b : subexpr e c -> occurs e (SIf c a b)
 | oc_if_a e c a b : occurs e a -> occurs e (SIf c a b)
 | oc_if_b e c a b : occurs e b -> occurs e (SIf c a b)
@@ -36,6 +39,7 @@ Lemma tbind_ok {A B} (r : tres A) (k : A -> tres B) b :
 Proof. destruct r as [a|err]; cbn; intros H; [exists a; auto|discriminate]. Qed.
 
 Section S.
+Variable structs : structs_t.
 Variable sigs : list sig.
 
 (* arguments of a well-typed call are well typed, pointwise against the signature *)
@@ -44,10 +48,10 @@ Lemma args_ok G rt : forall es pts,
      match es, pts with
      | [], [] => TOk rt
      | e1 :: r, t1 :: pr =>
-         tbind (check_expr sigs G e1) (fun te => if ty_eqb te t1 then args r pr else TErr EArgType)
+         tbind (check_expr structs sigs G e1) (fun te => if ty_eqb te t1 then args r pr else TErr EArgType)
      | _, _ => TErr EArity
      end) es pts = TOk rt ->
-  Forall2 (fun e pt => exists te, check_expr sigs G e = TOk te /\ ty_eqb te pt = true) es pts.
+  Forall2 (fun e pt => exists te, check_expr structs sigs G e = TOk te /\ ty_eqb te pt = true) es pts.
 Proof.
   induction es as [|e1 r IH]; intros [|t1 pr] H; try discriminate.
   - constructor.
@@ -56,9 +60,9 @@ Proof.
 Qed.
 
 Lemma call_inv G f es t :
-  check_expr sigs G (ECall f es) = TOk t ->
+  check_expr structs sigs G (ECall f es) = TOk t ->
   exists pts, nth_error sigs f = Some (pts, t) /\
-    Forall2 (fun e pt => exists te, check_expr sigs G e = TOk te /\ ty_eqb te pt = true) es pts.
+    Forall2 (fun e pt => exists te, check_expr structs sigs G e = TOk te /\ ty_eqb te pt = true) es pts.
 Proof.
   cbn. destruct (nth_error sigs f) as [[pts rt]|]; [|discriminate]. intros H.
   assert (rt = t).
@@ -68,31 +72,50 @@ Proof.
   subst rt. exists pts. split; [reflexivity|]. apply (args_ok G t es pts H).
 Qed.
 
+Lemma slit_inv G sid es t :
+  check_expr structs sigs G (EStructLit sid es) = TOk t ->
+  exists fts, nth_error structs sid = Some fts /\ t = TStruct sid /\
+    Forall2 (fun e ft => check_expr structs sigs G e = TOk (TInt ft)) es fts.
+Proof.
+  cbn. destruct (nth_error structs sid) as [fts|]; [|discriminate]. intros H. exists fts. split; [reflexivity|].
+  revert fts H. induction es as [|e1 r IH]; intros [|t1 fr] H; try discriminate.
+  - inversion H. split; [reflexivity|constructor].
+  - apply tbind_ok in H as [te [H1 H2]]. destruct (ty_eqb te (TInt t1)) eqn:E; [|discriminate].
+    destruct (IH fr H2) as [Ht HF]. split; [exact Ht|]. constructor; [|exact HF].
+    destruct te as [x| | |]; cbn in E; try discriminate. destruct x, t1; cbn in E; try discriminate; exact H1.
+Qed.
+
 (* T1: every subexpression of a well-typed expression is well typed (same environment) *)
-Theorem subexpr_typed G : forall e t, check_expr sigs G e = TOk t ->
-  forall e', subexpr e' e -> exists t', check_expr sigs G e' = TOk t'.
+Theorem subexpr_typed G : forall e t, check_expr structs sigs G e = TOk t ->
+  forall e', subexpr e' e -> exists t', check_expr structs sigs G e' = TOk t'.
 Proof.
   intros e t H e' Hs. revert t H.
-  induction Hs as [e|e o a b Hs IH|e o a b Hs IH|e o a Hs IH|e a t0 Hs IH|e f es a Hin Hs IH]; intros t H.
+  induction Hs as [e|e o a b Hs IH|e o a b Hs IH|e o a Hs IH|e a t0 Hs IH|e f es a Hin Hs IH|e sid es a Hin Hs IH|e a k Hs IH]; intros t H.
   - eauto.
   - cbn in H. apply tbind_ok in H as [ta [Ha _]]. eapply IH; eauto.
   - cbn in H. apply tbind_ok in H as [ta [_ H]]. apply tbind_ok in H as [tb [Hb _]]. eapply IH; eauto.
   - destruct o; cbn in H; apply tbind_ok in H as [ta [Ha _]]; eapply IH; eauto.
   - cbn in H. apply tbind_ok in H as [ta [Ha _]]. eapply IH; eauto.
   - apply call_inv in H as [pts [_ HF]].
-    assert (exists te, check_expr sigs G a = TOk te) as [te Hte].
+    assert (exists te, check_expr structs sigs G a = TOk te) as [te Hte].
     { clear - HF Hin. induction HF as [|x y l l' [te [H1 _]] _ IHF]; [destruct Hin|].
       destruct Hin as [->|Hin]; eauto. }
     eapply IH; eauto.
+  - apply slit_inv in H as [fts [_ [_ HF]]].
+    assert (exists te, check_expr structs sigs G a = TOk te) as [te Hte].
+    { clear - HF Hin. induction HF as [|x y l l' H1 _ IHF]; [destruct Hin|].
+      destruct Hin as [->|Hin]; eauto. }
+    eapply IH; eauto.
+  - cbn in H. apply tbind_ok in H as [ta [Ha _]]. eapply IH; eauto.
 Qed.
 
 Lemma prints_ok G : forall es,
   (fix pr (es : list expr) {struct es} : tres tenv :=
      match es with
      | [] => TOk G
-     | e1 :: r => tbind (check_expr sigs G e1) (fun te => if printable te then pr r else TErr EBadPrint)
+     | e1 :: r => tbind (check_expr structs sigs G e1) (fun te => if printable te then pr r else TErr EBadPrint)
      end) es = TOk G ->
-  forall a, In a es -> exists te, check_expr sigs G a = TOk te /\ printable te = true.
+  forall a, In a es -> exists te, check_expr structs sigs G a = TOk te /\ printable te = true.
 Proof.
   induction es as [|e1 r IH]; intros H a Hin; [destruct Hin|].
   apply tbind_ok in H as [te [H1 H2]]. destruct (printable te) eqn:E; [|discriminate].
@@ -100,11 +123,11 @@ Proof.
 Qed.
 
 (* T2: every expression occurring anywhere in a well-typed statement is well typed in some environment *)
-Theorem occurs_typed : forall s ret inl G G', check_stmt sigs ret inl G s = TOk G' ->
-  forall e, occurs e s -> exists G1 t, check_expr sigs G1 e = TOk t.
+Theorem occurs_typed : forall s ret inl G G', check_stmt structs sigs ret inl G s = TOk G' ->
+  forall e, occurs e s -> exists G1 t, check_expr structs sigs G1 e = TOk t.
 Proof.
   intros s ret inl G G' H e Ho. revert ret inl G G' H.
-  induction Ho as [e a b Ho IH|e a b Ho IH|e x t e0 Hs|e x e0 Hs|e c a b Hs|e c a b Ho IH|e c a b Ho IH
+  induction Ho as [e a b Ho IH|e a b Ho IH|e x t e0 Hs|e x e0 Hs|e x k e0 Hs|e c a b Hs|e c a b Ho IH|e c a b Ho IH
                   |e c a Hs|e c a Ho IH|e x t lo hi a Hs|e x t lo hi a Hs|e x t lo hi a Ho IH|e e0 Hs|e es a Hin Hs|e e0 Hs|e a Ho IH]; intros ret inl G G' H; cbn in H.
   - apply tbind_ok in H as [G1 [H1 H2]]. eapply IH; eauto.
   - apply tbind_ok in H as [G1 [H1 H2]]. eapply IH; eauto.
@@ -112,6 +135,9 @@ Proof.
     destruct (subexpr_typed G _ _ H1 _ Hs) as [t' Ht']. eauto.
   - destruct (tlookup x G); [|discriminate]. apply tbind_ok in H as [te [H1 _]].
     destruct (subexpr_typed G _ _ H1 _ Hs) as [t' Ht']. eauto.
+  - destruct (tlookup x G) as [[| | |sid]|]; try discriminate.
+    destruct (nth_error structs sid) as [fts|]; [|discriminate]. destruct (nth_error fts k); [|discriminate].
+    apply tbind_ok in H as [te [H1 _]]. destruct (subexpr_typed G _ _ H1 _ Hs) as [t' Ht']. eauto.
   - apply tbind_ok in H as [tc [H1 _]]. destruct (subexpr_typed G _ _ H1 _ Hs) as [t' Ht']. eauto.
   - apply tbind_ok in H as [tc [_ H]]. destruct tc; try discriminate.
     apply tbind_ok in H as [Ga [Ha _]]. eapply IH; eauto.
@@ -139,76 +165,81 @@ Qed.
 End S.
 
 (* T3: lifted to whole programs *)
-Lemma check_fns_all sigs : forall fs, check_fns sigs fs = TOk tt -> forall f, In f fs -> check_fn sigs f = TOk tt.
+Lemma check_fns_all structs sigs : forall fs, check_fns structs sigs fs = TOk tt -> forall f, In f fs -> check_fn structs sigs f = TOk tt.
 Proof.
   induction fs as [|g r IH]; intros H f Hin; [destruct Hin|].
   cbn in H. apply tbind_ok in H as [u [H1 H2]]. destruct u.
   destruct Hin as [->|Hin]; auto.
 Qed.
 
-Theorem prog_every_expr_typed p :
-  check_prog p = TOk tt ->
-  forall f e, In f p -> occurs e (fbody f) -> exists G t, check_expr (map sig_of p) G e = TOk t.
+Theorem prog_every_expr_typed structs p :
+  check_prog structs p = TOk tt ->
+  forall f e, In f p -> occurs e (fbody f) -> exists G t, check_expr structs (map sig_of p) G e = TOk t.
 Proof.
   unfold check_prog. destruct (rev p) as [|m r]; [discriminate|].
   destruct (fparams m); [|discriminate]. destruct (fret m); try discriminate.
-  intros H f e Hin Ho. pose proof (check_fns_all _ _ H f Hin) as Hf.
+  intros H f e Hin Ho. pose proof (check_fns_all _ _ _ H f Hin) as Hf.
   unfold check_fn in Hf. destruct (negb (distinct_params (fparams f))); [discriminate|].
   apply tbind_ok in Hf as [G' [Hs _]]. eapply occurs_typed; eauto.
 Qed.
 
 (* ---- the rules enforced at each node (inversion lemmas) ---- *)
 Section Rules.
+Variable structs : structs_t.
 Variable sigs : list sig.
 
 Lemma rule_arith_operands G o a b t :
   o = Add \/ o = Sub \/ o = Mul \/ o = Div \/ o = Mod ->
-  check_expr sigs G (EBin o a b) = TOk t ->
-  exists x, check_expr sigs G a = TOk (TInt x) /\ check_expr sigs G b = TOk (TInt x) /\ t = TInt x.
+  check_expr structs sigs G (EBin o a b) = TOk t ->
+  exists x, check_expr structs sigs G a = TOk (TInt x) /\ check_expr structs sigs G b = TOk (TInt x) /\ t = TInt x.
 Proof.
   intros Ho H. cbn in H. apply tbind_ok in H as [ta [Ha H]]. apply tbind_ok in H as [tb [Hb H]].
-  destruct Ho as [-> | [-> | [-> | [-> | ->]]]]; destruct ta as [x| |], tb as [y| |]; try discriminate;
+  destruct Ho as [-> | [-> | [-> | [-> | ->]]]]; destruct ta as [x| | |sx], tb as [y| | |sy]; try discriminate;
     destruct (ity_eqb x y) eqn:E; try discriminate; inversion H; subst;
     exists x; (assert (x = y) as <- by (destruct x, y; cbn in E; congruence)); auto.
 Qed.
 
 Lemma rule_order_operands G o a b t :
   o = Lt \/ o = Le \/ o = Gt \/ o = Ge ->
-  check_expr sigs G (EBin o a b) = TOk t ->
-  exists x, check_expr sigs G a = TOk (TInt x) /\ check_expr sigs G b = TOk (TInt x) /\ t = TBool.
+  check_expr structs sigs G (EBin o a b) = TOk t ->
+  exists x, check_expr structs sigs G a = TOk (TInt x) /\ check_expr structs sigs G b = TOk (TInt x) /\ t = TBool.
 Proof.
   intros Ho H. cbn in H. apply tbind_ok in H as [ta [Ha H]]. apply tbind_ok in H as [tb [Hb H]].
-  destruct Ho as [-> | [-> | [-> | ->]]]; destruct ta as [x| |], tb as [y| |]; try discriminate;
+  destruct Ho as [-> | [-> | [-> | ->]]]; destruct ta as [x| | |sx], tb as [y| | |sy]; try discriminate;
     destruct (ity_eqb x y) eqn:E; try discriminate; inversion H; subst;
     exists x; (assert (x = y) as <- by (destruct x, y; cbn in E; congruence)); auto.
 Qed.
 
 Lemma rule_logical_operands G o a b t :
   o = And \/ o = Or ->
-  check_expr sigs G (EBin o a b) = TOk t ->
-  check_expr sigs G a = TOk TBool /\ check_expr sigs G b = TOk TBool /\ t = TBool.
+  check_expr structs sigs G (EBin o a b) = TOk t ->
+  check_expr structs sigs G a = TOk TBool /\ check_expr structs sigs G b = TOk TBool /\ t = TBool.
 Proof.
   intros Ho H. cbn in H. apply tbind_ok in H as [ta [Ha H]]. apply tbind_ok in H as [tb [Hb H]].
   destruct Ho as [->| ->]; destruct ta, tb; try discriminate; inversion H; auto.
 Qed.
 
 Lemma rule_not_operand G a t :
-  check_expr sigs G (EUn Not a) = TOk t -> check_expr sigs G a = TOk TBool /\ t = TBool.
+  check_expr structs sigs G (EUn Not a) = TOk t -> check_expr structs sigs G a = TOk TBool /\ t = TBool.
 Proof. cbn. intros H. apply tbind_ok in H as [ta [Ha H]]. destruct ta; try discriminate. inversion H; auto. Qed.
 
-Lemma rule_var_defined G x t : check_expr sigs G (EVar x) = TOk t -> tlookup x G = Some t.
+Lemma rule_var_defined G x t : check_expr structs sigs G (EVar x) = TOk t -> tlookup x G = Some t.
 Proof. cbn. destruct (tlookup x G); intros H; inversion H; reflexivity. Qed.
 
-Lemma rule_literal_range G t v t' : check_expr sigs G (ELit t v) = TOk t' -> in_range t v = true /\ t' = TInt t.
+Lemma rule_literal_range G t v t' : check_expr structs sigs G (ELit t v) = TOk t' -> in_range t v = true /\ t' = TInt t.
 Proof. cbn. destruct (in_range t v); intros H; inversion H; auto. Qed.
 
 Lemma ty_eqb_eq a b : ty_eqb a b = true -> a = b.
-Proof. destruct a as [x| |], b as [y| |]; cbn; try discriminate; auto. destruct x, y; cbn; congruence. Qed.
+Proof.
+  destruct a as [x| | |m], b as [y| | |n]; cbn; try discriminate; auto.
+  - destruct x, y; cbn; congruence.
+  - intros H. apply Nat.eqb_eq in H. congruence.
+Qed.
 
 Lemma rule_call G f es t :
-  check_expr sigs G (ECall f es) = TOk t ->
+  check_expr structs sigs G (ECall f es) = TOk t ->
   exists pts, nth_error sigs f = Some (pts, t) /\ length es = length pts /\
-              Forall2 (fun e pt => check_expr sigs G e = TOk pt) es pts.
+              Forall2 (fun e pt => check_expr structs sigs G e = TOk pt) es pts.
 Proof.
   intros H. apply call_inv in H as [pts [Hn HF]]. exists pts. split; [exact Hn|]. split.
   - clear - HF. induction HF; cbn; congruence.
@@ -217,16 +248,16 @@ Proof.
 Qed.
 
 Lemma rule_condition_bool ret inl G c a b G' :
-  check_stmt sigs ret inl G (SIf c a b) = TOk G' -> check_expr sigs G c = TOk TBool.
+  check_stmt structs sigs ret inl G (SIf c a b) = TOk G' -> check_expr structs sigs G c = TOk TBool.
 Proof. cbn. intros H. apply tbind_ok in H as [tc [Hc H]]. destruct tc; try discriminate. exact Hc. Qed.
 
 Lemma rule_loop_condition_bool ret inl G c a G' :
-  check_stmt sigs ret inl G (SWhile c a) = TOk G' -> check_expr sigs G c = TOk TBool.
+  check_stmt structs sigs ret inl G (SWhile c a) = TOk G' -> check_expr structs sigs G c = TOk TBool.
 Proof. cbn. intros H. apply tbind_ok in H as [tc [Hc H]]. destruct tc; try discriminate. exact Hc. Qed.
 
 Lemma rule_let ret inl G x t e G' :
-  check_stmt sigs ret inl G (SLet x t e) = TOk G' ->
-  in_current x G = false /\ check_expr sigs G e = TOk t /\ t <> TVoid.
+  check_stmt structs sigs ret inl G (SLet x t e) = TOk G' ->
+  in_current x G = false /\ check_expr structs sigs G e = TOk t /\ t <> TVoid.
 Proof.
   cbn. destruct (in_current x G); [discriminate|]. intros H. apply tbind_ok in H as [te [He H]].
   destruct t; try discriminate; destruct (ty_eqb te _) eqn:E; try discriminate;
@@ -234,15 +265,15 @@ Proof.
 Qed.
 
 Lemma rule_assign ret inl G x e G' :
-  check_stmt sigs ret inl G (SAssign x e) = TOk G' ->
-  exists t, tlookup x G = Some t /\ check_expr sigs G e = TOk t.
+  check_stmt structs sigs ret inl G (SAssign x e) = TOk G' ->
+  exists t, tlookup x G = Some t /\ check_expr structs sigs G e = TOk t.
 Proof.
   cbn. destruct (tlookup x G) as [t|]; [|discriminate]. intros H. apply tbind_ok in H as [te [He H]].
   destruct (ty_eqb te t) eqn:E; [|discriminate]. apply ty_eqb_eq in E. subst. eauto.
 Qed.
 
 Lemma rule_return_value ret inl G e G' :
-  check_stmt sigs ret inl G (SReturn (Some e)) = TOk G' -> ret <> TVoid /\ check_expr sigs G e = TOk ret.
+  check_stmt structs sigs ret inl G (SReturn (Some e)) = TOk G' -> ret <> TVoid /\ check_expr structs sigs G e = TOk ret.
 Proof.
   cbn. intros H. apply tbind_ok in H as [te [He H]].
   destruct ret; try discriminate; destruct (ty_eqb te _) eqn:E; try discriminate;
@@ -250,6 +281,6 @@ Proof.
 Qed.
 
 Lemma rule_return_missing_value ret inl G G' :
-  check_stmt sigs ret inl G (SReturn None) = TOk G' -> ret = TVoid.
+  check_stmt structs sigs ret inl G (SReturn None) = TOk G' -> ret = TVoid.
 Proof. cbn. destruct ret; intros H; try discriminate; reflexivity. Qed.
 End Rules.
